@@ -286,11 +286,14 @@ STATE_PRELUDE = """
 Definition text := list Z.      (* a Python str: code points *)
 
 Record exc := {
-  e_type : text;                 (* reflect.qual(obj.type) *)
+  e_type : res text;             (* reflect.qual(obj.type) = obj.type.__module__ + "." + obj.type.__name__: raises TypeError for a
+                                    class whose __module__ is not a string (type("E", (Exception,), {"__module__": None})) *)
   e_str : res text;              (* str(obj.value): an exception class may make it raise *)
   e_fallback : text;             (* what reflect.safe_str(obj.value) returns when str() raises *)
-  e_stack : text;                (* obj.getTraceback() *)
-  e_parents : list text          (* obj.parents *)
+  e_stack : text;                (* obj.getTraceback() (twisted renders reflect.qual(obj.type) into it: it raises only when e_type
+                                    does, which getStateToCopy meets first) *)
+  e_parents : res (list text)    (* obj.parents: twisted computes it on first use, reflect.qual of every class of the MRO -- raises
+                                    like e_type when the class or one of its ancestors has no module name *)
 }.
 
 Record fstate := { s_type : list Z; s_value : list Z; s_traceback : list Z; s_parents : list (list Z) }.
@@ -337,6 +340,9 @@ def gen_get_state(gs, mod, consts):
     truncating ... all change the generated definition (and the theorems are re-checked against it).
     Taken as given (python3 / Twisted facts, stated in the file): obj.value is not itself a Failure and obj.type is a class, so
     of the three-way test at the top the last branch runs, and the inner `isinstance(obj.type, str)` test is false.
+    NOT taken as given (review 2): that reflect.qual(obj.type) and the property obj.parents return -- both are `res` fields of
+    the exception record and become sbind steps at their place in the source order (a guarded call, e.g. a "safe qual", is a
+    statement this translator does not know: Untranslatable, fail closed).
     consts: the named constants emitted earlier; every literal met here must be one of them (single source of truth)."""
     lines = []
     env = {}            # state key -> (var, kind)
@@ -462,7 +468,8 @@ def gen_get_state(gs, mod, consts):
                 return
             if k == "type" and U(st.value) == "reflect.qual(obj.type)":
                 v = fresh("ty")
-                lines.append("  let %s := e_type e in" % v)
+                lines.append("  sbind (e_type e) (fun %s =>" % v)      # reflect.qual can raise: nothing guards it
+                closers.append(")")
                 env[k] = (v, "text")
                 return
             if k == "parents" and isinstance(st.value, ast.Name) and st.value.id in loc:
@@ -470,7 +477,10 @@ def gen_get_state(gs, mod, consts):
                 return
             raise P.Untranslatable("getStateToCopy: unexpected assignment " + t[:100])
         if t == "parents = obj.parents[:]":
-            loc["parents"] = ("(e_parents e)", "textlist")
+            v = fresh("ps")
+            lines.append("  sbind (e_parents e) (fun %s =>" % v)         # the property obj.parents can raise (reflect.qual per ancestor)
+            closers.append(")")
+            loc["parents"] = (v, "textlist")
             return
         if isinstance(st, ast.For) and U(st.target) == "(i, value)" and U(st.iter) == "enumerate(parents)" and not st.orelse:
             need(len(st.body) == 1 and isinstance(st.body[0], ast.Assign) and U(st.body[0].targets[0]) == "parents[i]", "parents loop body changed")
